@@ -233,6 +233,24 @@ pub fn gen(ctx: &Ctx, rng: &mut Rng, out: &mut Vec<String>) {
             }
         }
     }
+    // (d'') npy headers the parser refuses (structured element types, as numpy writes them) that carry characters of two, three and four
+    //       bytes at every offset from 60 to 100: a diagnostic that quotes or shortens the header must not cut a character in half
+    for ch in ["\u{e9}", "\u{20ac}", "\u{1f9ec}"] {
+        for k in 0..(if t { 44usize } else { 24 }) {
+            if !t && k % 2 == 1 && ch != "\u{e9}" { continue; }
+            let d = format!("{{'descr': [('contig', '<U8'), ('allele_count', '<i8'), ('alleles', '<i8'), ('{}fr{ch}quence', '<f8')], 'fortran_order': False, 'shape': (3,), }}", "x".repeat(k));
+            let file = io::frame(3, 0, &d, &[0u8; 24], rng, true);
+            let (cmd, args) = [("view", "-"), ("fold", "-"), ("stat", "-s sum"), ("view", "-O npy")][k % 4];
+            out.push(format!("pn.any\t{cmd}\t{args}\t{}", hex(&file)));
+        }
+    }
+    // … and text headers with such characters around the shape (the text header error quotes the line)
+    for ch in ["\u{e9}", "\u{20ac}", "\u{1f9ec}"] { for k in [0usize, 1, 2, 3, 70, 77, 78, 79, 80] {
+        let input = format!("#SHAPE=<3/{}{ch}{ch}x>\n1 2 3\n", "9".repeat(k));
+        out.push(format!("pn.any\tview\t-\t{}", hex(input.as_bytes())));
+        let input2 = format!("#SHAPE=<3>\n1 {}{ch}{ch} 3\n", "7".repeat(k));
+        out.push(format!("pn.any\tstat\t-s sum\t{}", hex(input2.as_bytes())));
+    } }
     // (e) create: contradictory / odd sample lists, projections and thread counts on a valid call set
     let cs = vcf::CallSet { cols: vec!["s0".into(), "s1".into(), "s2".into()], extras: false, wide: 0,
         recs: vec![vcf::Record { contig: "1".into(), pos: 5, gts: vec!["0/1".into(), "1/1".into(), "./.".into()], corrupt: None }, vcf::Record { contig: "1".into(), pos: 9, gts: vec!["0|0".into(), "0/1".into(), "1/1".into()], corrupt: None }] };
